@@ -1,6 +1,7 @@
 ------------------------------ MODULE MC_C09 ------------------------------
 (* line-count (C09): operator x bound x block shape for the exhaustive check. *)
 EXTENDS Rules
+CONSTANT WithUws   \* TRUE: the alphabet also holds a line of non-ASCII white space (FALSE in the 6-line run of the thorough tier)
 
 CONSTANT MaxN
 
@@ -8,7 +9,8 @@ L(form, key, indent, trail, sfx) == [form |-> form, key |-> key, indent |-> inde
 
 \* "tag" lines are the tag lines of a nested block: they count like any other line
 MCLines == { L("k", <<97>>, 0, 0, 0), L("k", <<98>>, 2, 0, 0), L("tag", <<>>, 0, 0, 0),
-             L("blank", <<>>, 0, 0, 0), L("ws", <<>>, 3, 0, 0), L("uws", <<>>, 2, 0, 0) }
+             L("blank", <<>>, 0, 0, 0), L("ws", <<>>, 3, 0, 0) }
+             \cup (IF WithUws THEN {L("uws", <<>>, 2, 0, 0)} ELSE {})
 
 \* sp = spelling variant of the expression: 0 "OPN", 1 "OP N", 2 " OP  N "
 MCConfigs == { [kind |-> "count", dir |-> "asc", sp |-> s, pat |-> "none", fmt |-> "lex",
